@@ -181,8 +181,18 @@ type realNet struct {
 	tr1, tr2 *http.Transport
 }
 
-func newRealNet(handler http.Handler, seed int64) *realNet {
+func newRealNet(handler http.Handler, seed int64, noFlusher func(*http.Request) bool) *realNet {
 	n := &realNet{lis: newMemListener()}
+	{
+		inner := handler
+		handler = http.HandlerFunc(func(rw http.ResponseWriter, r *http.Request) {
+			if noFlusher(r) {
+				// the middleware whose ResponseWriter wrapper has no Flush
+				rw = struct{ http.ResponseWriter }{rw}
+			}
+			inner.ServeHTTP(rw, r)
+		})
+	}
 	if seed%3 != 0 {
 		// Two thirds of the worlds have a transport goroutine that now and then
 		// comes back late (fake clock) to read the request body, and handlers
